@@ -1,4 +1,6 @@
 import Mimium.Proofs.LexerTiling
+import Mimium.Proofs.PreparseNeighbour
+import Mimium.Proofs.CstBuilder
 /-!
 # C13 — tokens and syntax tree are lossless over the source text
 
@@ -9,7 +11,7 @@ for the tables re-extracted from `/repo` (`C13_generated_tables_ok`).
 -/
 namespace Mimium.Props.C13
 open Mimium.Gen (Kind)
-open Mimium.Lexer
+open Mimium.Lexer Mimium.Preparse Mimium.Cst
 
 /-- The side condition holds for the tables currently in `/repo` (regenerated on every run). -/
 theorem C13_generated_tables_ok : TablesOk genTables = true := by decide
@@ -83,6 +85,118 @@ theorem C13_tokens_concat_is_source (C : Classes) (T : Tables) (ok : TablesOk T 
   have : ((splitProj none (lex C T s)).map (·.text)).flatten = texts (splitProj none (lex C T s)) := by
     simp [texts, List.flatMap]
   rw [this, a]; simp
+
+
+/-! ## Trivia attachment (`preparse`).  `preparse` reads only token kinds, so the theorems quantify over ALL kind lists. -/
+
+/-- `token_indices` lists exactly the syntax tokens (neither trivia nor `Eof`), each once, in source order. -/
+theorem C13_token_indices_are_syntax_tokens (ks : List Kind) :
+    (preparse ks).tokenIndices.Pairwise (· < ·) ∧
+    ∀ x, x ∈ (preparse ks).tokenIndices ↔ x < ks.length ∧ isSyntax (ks.getD x Kind.Eof) = true := by
+  rw [preparse_tokenIndices]
+  refine ⟨syntaxIndices_pairwise ks 0, fun x => ?_⟩
+  rw [mem_syntaxIndices]; simp
+
+/-- Accounting: a token index occurs in the two trivia maps together exactly once if it is a trivia token outside the
+class `dropped`, and never otherwise (never twice, never a syntax token, never out of range). -/
+theorem C13_trivia_accounting (ks : List Kind) (x : Nat) :
+    (preparse ks).attachCount x + (if dropped ks x = true then 1 else 0) =
+      if x < ks.length ∧ (ks.getD x Kind.Eof).isTrivia = true then 1 else 0 :=
+  attach_count ks x
+
+/-- PARTIAL form of the trivia clause (the part that holds): every trivia token outside `dropped` is attached exactly once. -/
+theorem C13_trivia_partition_partial (ks : List Kind) (x : Nat) (hx : x < ks.length)
+    (ht : (ks.getD x Kind.Eof).isTrivia = true) (hd : dropped ks x = false) :
+    (preparse ks).attachCount x = 1 := by
+  have := attach_count ks x
+  simp only [hd, Bool.false_eq_true, if_false, hx, ht, and_self, if_true, Nat.add_zero] at this
+  exact this
+
+/-- The exception is characterised exactly, in both directions: a trivia token is attached to nothing iff it is in
+`dropped` (no syntax token before it, and a line break — or the end of the token list — comes before the next syntax token). -/
+theorem C13_dropped_iff_unattached (ks : List Kind) (x : Nat) (hx : x < ks.length)
+    (ht : (ks.getD x Kind.Eof).isTrivia = true) :
+    (preparse ks).attachCount x = 0 ↔ dropped ks x = true := by
+  have := attach_count ks x
+  simp only [hx, ht, and_self, if_true] at this
+  by_cases hd : dropped ks x = true
+  · simp only [hd, if_true] at this; simp [hd]; omega
+  · simp only [hd, Bool.false_eq_true, if_false] at this; simp [hd]; omega
+
+/-- Every attachment is to the neighbouring syntax token: a trailing entry `(k, x)` lies after the `k`-th syntax token with
+no syntax token in between; a leading entry belongs to the first syntax token and precedes it with none in between. -/
+theorem C13_trivia_attached_to_neighbour (ks : List Kind) :
+    (∀ k x, (k, x) ∈ (preparse ks).trailing.pairs →
+      ∃ t, (preparse ks).tokenIndices[k]? = some t ∧ t < x ∧ x < ks.length ∧
+        ∀ j, t < j → j ≤ x → isSyntax (ks.getD j Kind.Eof) = false) ∧
+    (∀ k x, (k, x) ∈ (preparse ks).leading.pairs →
+      k = 0 ∧ ∃ t, (preparse ks).tokenIndices[0]? = some t ∧ x < t ∧
+        ∀ j, x ≤ j → j < t → isSyntax (ks.getD j Kind.Eof) = false) :=
+  ⟨trailing_no_syntax_between ks, leading_no_syntax_before ks⟩
+
+/-- The full trivia clause of C13 is FALSE for the pinned code (finding F7): on the tokens of `" \na"`
+(`Whitespace LineBreak Ident Eof`) the whitespace and the line break are attached to nothing although a syntax token follows. -/
+theorem C13_trivia_attached_counterexample :
+    (tokenize ⟨fun c => c == 'a', fun c => c == 'a'⟩ genTables " \na".toList).map Token.kind =
+      [.Whitespace, .LineBreak, .Ident, .Eof] ∧
+    (preparse [.Whitespace, .LineBreak, .Ident, .Eof]).attachCount 0 = 0 ∧
+    (preparse [.Whitespace, .LineBreak, .Ident, .Eof]).attachCount 1 = 0 ∧
+    ¬ (∀ (ks : List Kind) (x : Nat), x < ks.length → (ks.getD x Kind.Eof).isTrivia = true → (preparse ks).attachCount x = 1) := by
+  refine ⟨by decide +kernel, by decide +kernel, by decide +kernel, ?_⟩
+  intro h
+  have := h [.Whitespace, .LineBreak, .Ident, .Eof] 0 (by decide) (by decide)
+  revert this
+  decide +kernel
+
+/-! ## Concrete syntax tree: the builder discipline -/
+
+/-- For EVERY sequence of builder/parser primitives that is bracketed (never closes the `Program` node, ends with only it
+open), the tree returned by the final `finish_node` has as token leaves exactly `token_indices[0 .. current)`, in order,
+each once, where `current` = number of `bump`s. -/
+theorem C13_cst_leaves_are_bumped_tokens (E : Env) (hE : EnvOk E) (ops : List Op) (hb : bracketed 1 ops = some 1) :
+    ∃ g, (exec E (run E ⟨[⟨0, []⟩], 0, none⟩ ops) .finishNode).root = some g ∧
+      g.leaves = E.tokenIndices.take (ops.count .bump) ∧
+      (exec E (run E ⟨[⟨0, []⟩], 0, none⟩ ops) .finishNode).stack = [] := by
+  have h0 : Inv E ⟨[⟨0, []⟩], 0, none⟩ := by simp [Cst.Inv, stackLeaves, leavesL]
+  have ⟨r1, _, r3, _, r5⟩ := run_spec E hE ops ⟨[⟨0, []⟩], 0, none⟩ 1 hb (by simp) h0
+  generalize run E ⟨[⟨0, []⟩], 0, none⟩ ops = st at r1 r3 r5
+  obtain ⟨stack, current, root⟩ := st
+  match stack, r1 with
+  | [f], _ =>
+    refine ⟨.node f.kind f.children, by simp [exec], ?_, by simp [exec, pushChild]⟩
+    simp only [Cst.Inv, stackLeaves, List.nil_append] at r3
+    simp only [Nat.zero_add] at r5
+    simp only [Green.leaves, r3, r5]
+
+/-- `Parser::parse` with ANY bracket-neutral `parse_statement`: the loop terminates with the cursor at the end, and the
+tree's token leaves are exactly `token_indices` — with `preparse`, every syntax token exactly once, in source order. -/
+theorem C13_cst_has_every_syntax_token_once (ks : List Kind) (widths : List Nat) (hw : widths.length = ks.length)
+    (stmt : PState → List Op) (hn : Neutral stmt) :
+    ∃ g, (parse ⟨widths, (preparse ks).tokenIndices⟩ stmt).root = some g ∧ g.leaves = syntaxIndices 0 ks := by
+  let E : Env := ⟨widths, (preparse ks).tokenIndices⟩
+  have hE : EnvOk E := by
+    intro ti hti
+    have := (C13_token_indices_are_syntax_tokens ks).2 ti |>.mp hti
+    show ti < widths.length
+    omega
+  have h0 : Inv E ⟨[⟨0, []⟩], 0, none⟩ := by simp [Cst.Inv, stackLeaves, leavesL]
+  have ⟨r1, r2, r3⟩ := parseLoop_spec E hE stmt hn (E.tokenIndices.length + 1) ⟨[⟨0, []⟩], 0, none⟩ rfl h0 (by simp)
+  show ∃ g, (exec E (parseLoop E stmt (E.tokenIndices.length + 1) ⟨[⟨0, []⟩], 0, none⟩) .finishNode).root = some g ∧ _
+  generalize parseLoop E stmt (E.tokenIndices.length + 1) ⟨[⟨0, []⟩], 0, none⟩ = st at r1 r2 r3
+  obtain ⟨stack, current, root⟩ := st
+  match stack, r1 with
+  | [f], _ =>
+    refine ⟨.node f.kind f.children, by simp [exec], ?_⟩
+    simp only [Cst.Inv, stackLeaves, List.nil_append] at r2
+    simp only [atEnd, decide_eq_true_eq] at r3
+    simp only [Green.leaves, r2]
+    rw [List.take_of_length_le r3]
+    exact preparse_tokenIndices ks
+
+/-- non-vacuity of the builder theorem: a Pratt-style `start_node_at` wrap keeps the leaves in order -/
+example : ((exec ⟨[1, 1, 1], [0, 1, 2]⟩ (run ⟨[1, 1, 1], [0, 1, 2]⟩ ⟨[⟨0, []⟩], 0, none⟩
+    [.startNode 1, .bump, .finishNode, .startNodeAt 0 2, .bump, .startNode 1, .bump, .finishNode, .finishNode]) .finishNode).root.map
+      Green.leaves) = some [0, 1, 2] := by decide +kernel
 
 /-- non-vacuity: the float-vs-projection split and an unterminated comment, on the generated tables -/
 example : (tokenize ⟨fun c => c == 'a', fun c => c == 'a'⟩ genTables "a.0.1/*".toList).map (fun t => (t.kind, t.start, t.len)) =
